@@ -141,25 +141,28 @@ pub fn cosine_distance(a: &[f32], b: &[f32]) -> f64 {
         return f64::INFINITY;
     }
 
-    let mut dot_product: f32 = 0.0;
-    let mut norm_a_sq: f32 = 0.0;
-    let mut norm_b_sq: f32 = 0.0;
+    // Accumulate in f64: the square of a large finite f32 overflows f32 to infinity,
+    // which turned the result into NaN
+    let mut dot_product: f64 = 0.0;
+    let mut norm_a_sq: f64 = 0.0;
+    let mut norm_b_sq: f64 = 0.0;
 
     // Single pass through both vectors for cache efficiency
     for (x, y) in a.iter().zip(b.iter()) {
+        let (x, y) = (f64::from(*x), f64::from(*y));
         dot_product += x * y;
         norm_a_sq += x * x;
         norm_b_sq += y * y;
     }
 
-    let norm_a = f64::from(norm_a_sq).sqrt();
-    let norm_b = f64::from(norm_b_sq).sqrt();
+    let norm_a = norm_a_sq.sqrt();
+    let norm_b = norm_b_sq.sqrt();
 
     if norm_a == 0.0 || norm_b == 0.0 {
         return 0.0; // Treat zero vectors as identical
     }
 
-    let similarity = f64::from(dot_product) / (norm_a * norm_b);
+    let similarity = dot_product / (norm_a * norm_b);
     // Clamp to handle floating point errors
     1.0 - similarity.clamp(-1.0, 1.0)
 }
@@ -312,24 +315,26 @@ pub fn cosine_distance_checked(a: &[f32], b: &[f32]) -> Result<f64, VectorError>
         });
     }
 
-    let mut dot_product: f32 = 0.0;
-    let mut norm_a_sq: f32 = 0.0;
-    let mut norm_b_sq: f32 = 0.0;
+    // Accumulate in f64 (see cosine_distance): f32 squares of large values overflow
+    let mut dot_product: f64 = 0.0;
+    let mut norm_a_sq: f64 = 0.0;
+    let mut norm_b_sq: f64 = 0.0;
 
     for (x, y) in a.iter().zip(b.iter()) {
+        let (x, y) = (f64::from(*x), f64::from(*y));
         dot_product += x * y;
         norm_a_sq += x * x;
         norm_b_sq += y * y;
     }
 
-    let norm_a = f64::from(norm_a_sq).sqrt();
-    let norm_b = f64::from(norm_b_sq).sqrt();
+    let norm_a = norm_a_sq.sqrt();
+    let norm_b = norm_b_sq.sqrt();
 
     if norm_a == 0.0 || norm_b == 0.0 {
         return Ok(0.0); // Treat zero vectors as identical
     }
 
-    let similarity = f64::from(dot_product) / (norm_a * norm_b);
+    let similarity = dot_product / (norm_a * norm_b);
     Ok(1.0 - similarity.clamp(-1.0, 1.0))
 }
 
